@@ -213,7 +213,7 @@ fn l3_unit_footer_absent_nodot() {
 
 /// Seal half of C01 at L3: seal -> Display -> FromStr -> unseal hands the backend back exactly what
 /// it produced, for every backend behaviour; nonce/encode/seal failures propagate.
-fn seal_path<const NONCE: usize, const M: usize, const F: usize, const A: usize, const R: usize>() {
+fn seal_path<const NONCE: usize, const M: usize, const F: usize, const A: usize, const R: usize, const PARSE_BACK: bool>() {
     unsafe {
         NONCE_LEN = NONCE;
         ENC_LEN = M;
@@ -257,6 +257,12 @@ fn seal_path<const NONCE: usize, const M: usize, const F: usize, const A: usize,
     let mut want = [0u8; 48];
     let wn = token_string(b"v4.local.", &l.seal_out.b[..R], &footer_b, false, &mut want);
     assert!(bytes_eq(sink.bytes(), &want[..wn]));
+    kani::cover!(true, "sealed and serialised");
+    if !PARSE_BACK {
+        // the parse-and-unseal half on exactly such strings is l3_unseal_exact_*
+        core::mem::forget(sealed);
+        return;
+    }
     // parse back and unseal
     let st = unsafe { core::str::from_utf8_unchecked(sink.bytes()) };
     let back = match SealedToken::<AV, Local, Msg, Vec<u8>>::from_str(st) {
@@ -282,18 +288,35 @@ fn seal_path<const NONCE: usize, const M: usize, const F: usize, const A: usize,
 #[kani::unwind(20)]
 #[kani::stub(core::slice::memchr::memchr, crate::oracle::memchr_none)]
 fn l3_seal_path_n2_m1_f0_a0_r3() {
-    seal_path::<2, 1, 0, 0, 3>();
+    seal_path::<2, 1, 0, 0, 3, true>();
 }
 #[kani::proof]
 #[kani::unwind(20)]
 #[kani::stub(core::slice::memchr::memchr, crate::oracle::memchr_at6)]
 fn l3_seal_path_n0_m2_f2_a1_r4() {
-    seal_path::<0, 2, 2, 1, 4>();
+    seal_path::<0, 2, 2, 1, 4, true>();
 }
 #[kani::proof]
 #[kani::unwind(20)]
 #[kani::stub(core::slice::memchr::memchr, crate::oracle::memchr_at7)]
 fn l3_seal_path_n3_m0_f1_a2_r5() {
-    seal_path::<3, 0, 1, 2, 5>();
+    seal_path::<3, 0, 1, 2, 5, true>();
 }
 
+
+// the seal -> serialise half alone (the chain above is thorough-tier: 0.5 M steps)
+#[kani::proof]
+#[kani::unwind(20)]
+fn l3_seal_serialise_n2_m1_f0_a0_r3() {
+    seal_path::<2, 1, 0, 0, 3, false>();
+}
+#[kani::proof]
+#[kani::unwind(20)]
+fn l3_seal_serialise_n0_m2_f2_a1_r4() {
+    seal_path::<0, 2, 2, 1, 4, false>();
+}
+#[kani::proof]
+#[kani::unwind(20)]
+fn l3_seal_serialise_n3_m0_f1_a2_r5() {
+    seal_path::<3, 0, 1, 2, 5, false>();
+}
